@@ -33,7 +33,7 @@ class LabelGroup(SupportsConfig):
         if isinstance(value_labels, int):
             value_labels = [value_labels]
 
-        value_labels = list(set(value_labels))
+        value_labels = sorted(set(value_labels))
 
         assert (
             len(value_labels) >= 1
